@@ -115,6 +115,10 @@ func c05CLI(c *mon.Ctx, aText, bText string, o OptSet, yaml bool) {
 			if format == "patch" {
 				args = append(args, "-f", "patch")
 			}
+			if c.R.Chance(0.3) {
+				args = append(args, "-o", "out.txt") // the exit status must not depend on where the diff is written
+				c.Feature("cli_with_-o")
+			}
 			args = append(args, "a.json", "b.json")
 			res := RunCLI(c, bin, args, "", map[string]string{"a.json": aText, "b.json": bText})
 			c.Feature("cli_runs")
